@@ -45,7 +45,7 @@ ASSUMPTIONS = {"C13": [
 ]}
 EXPECTED_PROBES = {"C13": ["probe:expr_cache_hit", "probe:path_cache_hit", "fault:evict_expr_cache", "fault:evict_path_cache",
                            "fault:lru_shrunk", "fault:lru_cleared", "probe:expr_reused_on_new_arrays", "probe:negative_int_labels",
-                           "probe:list_inputs_unhashable", "fault:pathfinder_failed_once", "api:einsum", "api:ncon",
+                           "probe:list_inputs_unhashable", "fault:pathfinder_failed_once", "api:einsum", "api:ncon", "api:expr_constants", "probe:constants_mutated_in_place",
                            "api:array_contract_path", "api:einsum_expression"]}
 
 
@@ -114,20 +114,30 @@ def shrink_lrus(maxsize):
 
 
 class uncached_internals:
-    """Reference side: bypass the module-level lru caches entirely."""
+    """Reference side: bypass the module-level lru caches entirely and start
+    from empty per-type dispatch caches (restored afterwards)."""
 
     def __enter__(self):
+        import cotengra.interface as I
+
         mods = _mods()
         self.saved = {}
         for (m, name), fn in _ORIG.items():
             self.saved[(m, name)] = getattr(mods[m], name)
             setattr(mods[m], name, fn.__wrapped__)
+        self.dicts = []
+        for d in (I._find_path_handlers, I._find_tree_handlers, I._HASH_OPTIMIZE_PREPARERS):
+            self.dicts.append((d, dict(d)))
+            d.clear()
         return self
 
     def __exit__(self, *exc):
         mods = _mods()
         for (m, name), fn in self.saved.items():
             setattr(mods[m], name, fn)
+        for d, old in self.dicts:
+            d.clear()
+            d.update(old)
         return False
 
 
@@ -217,6 +227,16 @@ def _gen_pool(rng, sw):
         s2 = copy.deepcopy(s)
         s2["optimize"] = [list(p) for p in _lin_path(rng, n)]
         add(s2, "optimize-explicit-path-2")
+    # edge path (an order of indices to eliminate) given as a tuple / list of labels
+    names_all = [k for k, _ in base["sizes"]]
+    if len(names_all) >= 2:
+        s = copy.deepcopy(base)
+        ep = names_all[:]
+        rng.shuffle(ep)
+        s["optimize"] = ep
+        s["optimize_kind"] = "edge"
+        s["edge_as_list"] = rng.random() < 0.5
+        add(s, "optimize-edge-path")
     # kwargs variants
     for kw in rng.sample([{"strip_exponent": True}, {"implementation": "cotengra"}, {"implementation": "autoray"},
                           {"prefer_einsum": True}, {"sort_contraction_indices": True}], 2):
@@ -271,7 +291,7 @@ def _lin_path(rng, n):
 
 
 APIS = ["array_contract", "array_contract", "array_contract_expression", "array_contract_path", "einsum",
-        "einsum_expression", "ncon", "expr_reuse", "expr_reuse"]
+        "einsum_expression", "ncon", "expr_reuse", "expr_reuse", "expr_constants", "expr_constants_inplace"]
 
 
 def gen_case(prop, seed, tier):
@@ -315,7 +335,7 @@ def _materialise(spec):
     elif kind == "path-list":
         opt = [tuple(p) for p in opt]
     elif kind == "edge":
-        opt = tuple(opt)
+        opt = list(opt) if spec.get("edge_as_list") else tuple(opt)
     return inputs, output, sizes, opt
 
 
@@ -373,11 +393,42 @@ def _call(ctg, api, spec, aseed, cache, held_expr=None):
             expr = ctg.array_contract_expression(inputs, output, shapes=shapes, optimize=opt, cache=cache,
                                                  canonicalize=spec["canonicalize"], **kw)
         return ("expr", expr, _val(expr(*arrays), kw))
+    if api == "expr_constants":
+        crng = random.Random(aseed)
+        n = len(arrays)
+        k = sorted(crng.sample(range(n), crng.randint(1, max(1, n - 1))))
+        constants = {i: arrays[i] for i in k}
+        expr = ctg.array_contract_expression(inputs, output, shapes=shapes, optimize=opt, constants=constants, cache=cache,
+                                             canonicalize=spec["canonicalize"], **kw)
+        return ("value", _val(expr(*[a for i, a in enumerate(arrays) if i not in k]), kw))
+    if api == "expr_constants_inplace":
+        # the caller keeps its constant arrays and updates them IN PLACE between calls
+        crng = random.Random(prng.H("consts", spec["diff"]))
+        n = len(arrays)
+        k = sorted(crng.sample(range(n), max(1, n - 1)))  # all but one input are constants
+        store = held_expr if isinstance(held_expr, dict) else {}
+        if "arrays" not in store:
+            store["arrays"] = {i: arrays[i].copy() for i in k}
+        elif store.get("mutate"):
+            for i in k:
+                store["arrays"][i] *= 1.0 + (aseed % 7) / 3.0
+        constants = dict(store["arrays"])
+        expr = ctg.array_contract_expression(inputs, output, shapes=shapes, optimize=opt, constants=constants, cache=cache,
+                                             canonicalize=spec["canonicalize"], **kw)
+        full = [constants[i] if i in constants else a for i, a in enumerate(arrays)]
+        return ("value-arrays", full, _val(expr(*[a for i, a in enumerate(arrays) if i not in k]), kw))
     if api == "array_contract_path":
         p = ctg.array_contract_path(inputs, output, shapes=shapes, optimize=opt, cache=cache, canonicalize=spec["canonicalize"])
         return ("path", tuple(tuple(x) for x in p))
     eq = ",".join("".join(t) for t in spec["inputs"]) + "->" + "".join(spec["output"])
     kw.pop("canonicalize", None)
+    if api == "einsum" and aseed % 3 == 0:
+        # implicit-output form when it denotes the same contraction
+        lhs = eq.split("->")[0]
+        flat = lhs.replace(",", "")
+        implicit = "".join(sorted(c for c in set(flat) if flat.count(c) == 1))
+        if implicit == "".join(spec["output"]):
+            eq = lhs
     if api == "einsum":
         out = ctg.einsum(eq, *arrays, optimize=opt, cache_expression=cache, **kw)
         return ("value", _val(out, kw))
@@ -417,6 +468,7 @@ def run_case(prop, case):
         faults["fault:lru_shrunk"] += 1
     pool = case["pool"]
     held = {}  # (spec index) -> cached expression returned earlier
+    const_store = {}  # (spec index) -> the caller's constant arrays (updated in place between calls)
     seen_diffs = []
     log.add("case", case["seed"], [(s["diff"], s["inputs"], s["output"], s["sizes"], s["optimize"], s["kwargs"]) for s in pool])
 
@@ -466,7 +518,14 @@ def run_case(prop, case):
             sub_err = None
             sub = None
             try:
-                sub = _call(ctg, api, spec, c["aseed"], True, held_expr=held.get(si) if api == "expr_reuse" else None)
+                if api == "expr_constants_inplace":
+                    st = const_store.setdefault(si, {})
+                    st["mutate"] = True
+                    sub = _call(ctg, api, spec, c["aseed"], True, held_expr=st)
+                    counters["probe:constants_mutated_in_place"] += 1 if st.get("calls") else 0
+                    st["calls"] = st.get("calls", 0) + 1
+                else:
+                    sub = _call(ctg, api, spec, c["aseed"], True, held_expr=held.get(si) if api == "expr_reuse" else None)
             except Exception as e:
                 sub_err = e
             consumed_fail = injected_fail and not _FLAKY["fail"]
@@ -491,7 +550,12 @@ def run_case(prop, case):
             with uncached_internals():
                 snap_e, snap_p = dict(I._CONTRACT_EXPR_CACHE), dict(I._PATH_CACHE)
                 try:
-                    ref = _call(ctg, api, spec, c["aseed"], False, held_expr=None)
+                    if api == "expr_constants_inplace":
+                        st = const_store.setdefault(si, {})
+                        st["mutate"] = False
+                        ref = _call(ctg, api, spec, c["aseed"], False, held_expr=st)
+                    else:
+                        ref = _call(ctg, api, spec, c["aseed"], False, held_expr=None)
                 except Exception as e:
                     ref_err = e
                 # the reference must not touch the subject's caches
@@ -505,7 +569,7 @@ def run_case(prop, case):
             if spec.get("as_list"):
                 counters["probe:list_inputs_unhashable"] += 1
             hit = False
-            if api in ("array_contract", "array_contract_expression", "einsum", "einsum_expression", "ncon") and not grew_expr and sub_err is None:
+            if api in ("array_contract", "array_contract_expression", "einsum", "einsum_expression", "ncon", "expr_constants", "expr_constants_inplace") and not grew_expr and sub_err is None:
                 if not spec.get("as_list"):
                     counters["probe:expr_cache_hit"] += 1
                     hit = True
@@ -545,7 +609,7 @@ def run_case(prop, case):
                 a = sub[-1]
                 b = ref[-1]
                 inputs, output, sizes, opt = _materialise(spec)
-                arrays = _arrays(spec, sizes, c["aseed"])
+                arrays = sub[1] if sub[0] == "value-arrays" else _arrays(spec, sizes, c["aseed"])
                 truth, scale = _truth(spec, arrays)
                 bad = None
                 if a.shape != b.shape:
